@@ -40,9 +40,12 @@ type fallbackGenerator struct {
 	counter uint64
 }
 
+// fallbackSeq tells apart the generators created in the same instant
+var fallbackSeq uint64
+
 func NewFallbackGenerator() IGenerator {
 	return &fallbackGenerator{
-		prefix: strconv.FormatInt(time.Now().UnixNano(), 36),
+		prefix: strconv.FormatInt(time.Now().UnixNano(), 36) + "." + strconv.FormatUint(atomic.AddUint64(&fallbackSeq, 1), 36),
 	}
 }
 
